@@ -144,22 +144,35 @@ def _check_axis(arg, axis, op):
 
 #===============================================================================
 def _zero_sized_result(self, axis):
-    """A zero-sized result obtained by collapsing one or more axes of an object
-    that already has size zero.
+    """The result of a reduction over one or more axes of an object that already
+    has size zero.
+
+    The shape is the one NumPy gives: the shape of the object with the selected
+    axes removed (all of them if axis is None). No element contributes to any
+    element of the result, so it is entirely masked and filled with the default
+    value. Derivatives are reduced alongside.
     """
 
+    rank = len(self._shape_)
     if axis is None:
-        return self.flatten().as_size_zero()
+        axes = tuple(range(rank))
+    elif isinstance(axis, (list, tuple)):
+        axes = tuple(i % rank for i in axis)
+    else:
+        axes = (axis % rank,)
 
-    # Construct an index to obtain the correct shape
-    indx = len(self.shape) * [slice(None)]
-    if isinstance(axis, (list, tuple)):
-        for i in axis:
-            indx[i] = 0
-        else:
-            indx[i] = 0
+    new_shape = tuple(self._shape_[i] for i in range(rank) if i not in axes)
 
-    return self[tuple(indx)]
+    new_values = np.empty(new_shape + self._item_, dtype=self._values_.dtype)
+    new_values[...] = self._default_
+
+    obj = Qube(new_values, True, example=self)
+    obj = obj.cast(type(self))
+
+    for (key, deriv) in self._derivs_.items():
+        obj.insert_deriv(key, deriv._zero_sized_result(axis))
+
+    return obj
 
 #===============================================================================
 @staticmethod
